@@ -691,6 +691,8 @@ fn main() {
             b"A:S \"0123456789abcdef\n*R\n\"\n",
             b"A:B;K #2270123456789abcdef\n:E\nA:B\nxyz;:E\n",
             b"A:N 5,'\n\n\n\n\n\n\n\nE\n'\n",
+            // the same with a zero-padded block length field
+            b"A:K #30200123456789abcdef\n:E\n\n",
         ];
         // fitting messages in front of and behind the over-long one (also with payload newlines):
         // they are executed exactly as on their own
@@ -761,7 +763,7 @@ fn main() {
             "lex_run_other_writers": {"max_tokens": lex2_len, "writers": writers2.iter().map(|w| w.json()).collect::<Vec<_>>(), "executions": lex2_execs},
             "lex_run_second_alphabet": {"alphabet": lex::sigma_alt_json(), "max_tokens": lex3_len, "writers": lw3.iter().map(|w| w.json()).collect::<Vec<_>>(), "strings": lex3_cases, "executions": lex3_execs},
             "lexeme_strings_on_lexi": {"alphabet": lex::sigma_lexeme_json(), "max_tokens": lexeme_len, "executions": lexeme_execs},
-            "oversized_messages": {"messages": 9, "with_newlines_inside_a_string_or_block": 4, "N": "every instantiated N below the message length", "around": "3 fitting messages in front x 3 behind (also with payload newlines)", "oracle": "nothing of the oversized message is executed, the messages around it are executed as on their own", "executions": over_execs},
+            "oversized_messages": {"messages": 10, "with_newlines_inside_a_string_or_block": 5, "N": "every instantiated N below the message length", "around": "3 fitting messages in front x 3 behind (also with payload newlines)", "oracle": "nothing of the oversized message is executed, the messages around it are executed as on their own", "executions": over_execs},
             "long_numeric_fields": {"digits": "1..=40 in mantissa, fraction, exponent, radix literals, block length", "parameter_types": 15, "executions": long_execs},
             "many_parameters": {"headers": 9, "literal_kinds": 6, "parameters": "0..=16", "executions": many_execs},
             "capacity_sweep": {"messages": msgs.len(), "capacities": "recorder 0..=64, heapless {0,1,2,8,9,16,41,64}", "executions": cap_execs},
